@@ -57,7 +57,8 @@ namespace xtl
             
             while(len >= 4)
             {
-                uint32_t k = *(uint32_t*)data;
+                uint32_t k;
+                std::memcpy(&k, data, sizeof(k));
                 k *= m;
                 k ^= k >> 24;
                 k *= m;
@@ -158,7 +159,8 @@ namespace xtl
 
             while (length >= 4)
             {
-                uint32_t k = *(uint32_t*)data;
+                uint32_t k;
+                std::memcpy(&k, data, sizeof(k));
 
                 mmix(h, k, m, r);
 
